@@ -14,7 +14,7 @@ namespace {
 const int E_WALK = 6, T_WALK = 4;        // slots used by histories
 const int E_C = 6, E_S1 = 7, E_S2 = 8, T_C = 4, T_S1 = 5, T_S2 = 6;  // cluster / scratch slots
 
-enum Fault : uint8_t { F_NONE = 0, F_REJECT = 1, F_EDGE = 2, F_RANDX = 3 };
+enum Fault : uint8_t { F_NONE = 0, F_REJECT = 1, F_EDGE = 2, F_RANDX = 3, F_XFER = 5 };
 
 struct Hist {
   const RunOpts& o;
@@ -291,7 +291,15 @@ struct Hist {
   bool check_c03_tan(const GroupCtx& gc, int tslot, int eslot, const OpRec& op) {
     const GroupVT* vt = gc.vt;
     double t[32]; vt->get_tan(gc.st, tslot, 0, t);
-    for (int k = 0; k < vt->n_ang; ++k) if (block_norm(t, vt->ang[k]) > M_PI - 1e-3) return true;
+    // inside the injectivity radius the principal logarithm is unique; within 1e-3 of pi the near-pi tolerance applies
+    // (cancellation of 1+cos(theta) in V^-1), within 1e-8 of pi the sign of w is down to rounding and the check stops
+    bool near_pi = false;
+    for (int k = 0; k < vt->n_ang; ++k) {
+      const double a = block_norm(t, vt->ang[k]);
+      if (a > M_PI - std::max(1e-8, 1e3 * eps_mach(vt))) return true;   // (float: the library's own theta/2 and cos carry 1e-7 relative error)
+      if (a > M_PI - 1e-3) near_pi = true;
+    }
+    if (near_pi) res.add("p.logexp_near_pi", 1);
     OpRec l = OpRec(); l.op = OP_LOG; l.a = (uint8_t)eslot; l.ka = K_OWN;
     Out lo; vt->exec(gc.st, &l, &lo);
     if (lo.status != 0) return true;  // reported by check_c03_elem
@@ -302,9 +310,9 @@ struct Hist {
       double d = std::fabs(lo.v[i] - t[i]);
       if (ang) { if (!(d <= dang)) dang = d; } else { if (!(d <= dlin)) dlin = d; }
     }
-    const double tol_ang = 2 * this->tol_rot(vt);
+    const double tol_ang = (near_pi ? 20 : 2) * this->tol_rot(vt);
     double xe[32]; vt->get_elem(gc.st, eslot, 0, xe);
-    const double tol_lin = this->tol_lin(vt, lin_mag_tan(vt, t), false, input_allowance(vt, xe, t));
+    const double tol_lin = this->tol_lin(vt, lin_mag_tan(vt, t), near_pi, input_allowance(vt, xe, t));
     if (!(dang <= tol_ang) || !(dlin <= tol_lin)) {
       std::ostringstream s; s.precision(17);
       s << "log(exp t) != t for " << vt->name << " t=" << vec_str(t, vt->dof) << " log(exp t)=" << vec_str(lo.v, lo.nv)
@@ -365,6 +373,17 @@ struct Hist {
         slot = s.dst >= 0 ? s.dst : E_S1;
         for (int i = 0; i < vt->rep; ++i) c[i] = out.v[i];
         vt->set_elem(gc.st, slot, 2, c);
+      }
+      if (op.op == OP_CASTRT && op.fault == F_XFER && ctx.g.size() == 2 && out.n1 == ctx.g[1 - s.group].vt->rep) {
+        // mixed-precision history: the intermediate cast<Other>() result becomes an element of the other-scalar twin
+        const GroupCtx& tw = ctx.g[1 - s.group];
+        tw.vt->set_elem(tw.st, op.fparam % E_WALK, 2, out.j1);
+        res.add("f.cast_transfer", 1);
+        if (!c03) {
+          OpRec top = op;
+          if (!check_elem_valid(tw, out.j1, top)) return false;
+          if (!check_reconstruct(tw, op.fparam % E_WALK, top)) return false;
+        }
       }
       if (!c03) {
         if (!check_elem_valid(gc, c, op)) return false;
@@ -575,6 +594,7 @@ struct Hist {
       s = make_op(g, OP_AVG_BIINV + (int)rng.below(4), 0, 0, dst);
     } else if (w < 84) {
       s = make_op(g, OP_CASTRT, a, 0, dst);
+      if (plan.cfg_int("twins", 0)) { s.op.fault = F_XFER; s.op.fparam = (uint16_t)rng.below(E_WALK); }
     } else if (w < 89) {
       s = make_op(g, rng.chance(0.5) ? OP_RANDOM : OP_M_SETRANDOM, a, 0, dst);
       if (rng.chance(0.25)) {  // rand() returns a legal extreme at a seeded draw
@@ -586,7 +606,10 @@ struct Hist {
     } else if (w < 95) {
       s = make_op(g, OP_M_ALIAS, a, b, -1); s.op.c = (uint8_t)rng.below(AL__N);
     } else if (w < 96) {
-      s = make_op(g, OP_M_SETIDENTITY, a, 0, -1);
+      int r = rng.below(3);
+      if (r == 0) s = make_op(g, OP_M_SETIDENTITY, a, 0, -1);
+      else if (r == 1) { s = make_op(g, OP_M_SETTERS, a, b, -1); s.op.c = (uint8_t)rng.below(3); }      // quat() / translation() setters
+      else { s = make_op(g, OP_T_SCALE, ts, 0, ts); s.op.s = round_scalar(vt, rng.chance(0.5) ? rng.uniform(-3, 3) : rng.logmag(1e-9, 1e3)); }
     } else if (w < 97) {
       Step n; n.kind = ST_NEG; n.group = (uint8_t)g; n.slot = a; return push(n);
     } else if (w < 98) {
@@ -663,8 +686,31 @@ struct Hist {
     }
   }
 
+  bool alternation(int g, long reps) {
+    // A then B, repeated: X *= Y ; X = X.inverse()   |   X += t ; X = cast round trip   |   X = X*X ; normalize
+    const GroupVT* vt = ctx.g[g].vt;
+    int kind = rng.below(3);
+    res.str["repetition"] = std::string("alt") + std::to_string(kind);
+    ElemSpec sp; sp.lin_lo = 1e-6; sp.lin_hi = vt->is_float ? 1e-5 : 1e-3;
+    double c[32]; gen_elem(vt, rng, sp, c);
+    if (!push(make_set(ST_SETE, g, 1, c, vt->rep))) return false;
+    TanSpec tsp; tsp.angle = rng.uniform(0.01, 3.0); tsp.lin_lo = 1e-6; tsp.lin_hi = 1e-4;
+    double t[32]; gen_tan(vt, rng, tsp, t);
+    if (!push(make_set(ST_SETT, g, 0, t, vt->dof))) return false;
+    Step a, b;
+    if (kind == 0) { a = make_op(g, OP_M_MULEQ, 0, 1, -1); b = make_op(g, OP_M_ALIAS, 0, 0, -1); b.op.c = AL_INVERSE; }
+    else if (kind == 1) { a = make_op(g, OP_M_PLUSEQ, 0, 0, -1); b = make_op(g, OP_CASTRT, 0, 0, 0); }
+    else { a = make_op(g, OP_M_ALIAS, 0, 0, -1); a.op.c = AL_SQUARE; b = make_op(g, OP_M_NORMALIZE, 0, 0, -1); }
+    const long n = std::min(reps, 40000L) / 2;   // every step is an explicit plan line, so that a failure replays and shrinks
+    planned_len = 2 * n;
+    for (long i = 0; i < n; ++i)
+      if (!push(a) || !push(b)) { res.num["alt_iterations"] = (double)i; return false; }
+    return true;
+  }
+
   bool repetition(int g, long reps) {
     const GroupVT* vt = ctx.g[g].vt;
+    if (rng.chance(0.2)) return alternation(g, reps);
     int kind = rng.below(10);
     res.str["repetition"] = std::to_string(kind);
     Step s;
@@ -729,6 +775,11 @@ struct Hist {
     int ng = n_groups();
     int ngr = rng.chance(0.25) ? 2 : 1;
     for (int i = 0; i < ngr; ++i) plan.groups.push_back(group((int)rng.below(ng))->name);
+    if (ngr == 2 && rng.chance(0.6)) {   // pair a group with its other-scalar twin: casts then move elements between the two
+      std::string n0 = plan.groups[0];
+      std::string tw = n0.substr(0, n0.size() - 1) + (n0[n0.size() - 1] == 'd' ? "f" : "d");
+      if (group_by_name(tw.c_str())) { plan.groups[1] = tw; plan.set("twins", 1); }
+    }
     std::string err;
     if (!ctx.init(plan, err)) { res.status = "harness_error"; res.detail = err; return; }
     int kind = rng.below(100);
